@@ -37,8 +37,6 @@ P4_QUICK = [   # prevector<4,uint32_t>: positions symbolic
     pv(0, 3, 'RESIZEU:6', 'ERASE1', 'RESIZEU:2', 'SHRINK'),
     pv(0, 5, 'ERASER:3', 'INSN:2', 'SHRINK', 'INS1'),
     pv(0, 4, 'RESERVE:5', 'INSR:1', 'SWAP:5', 'ERASER:1'),
-    pv(0, 4, 'CMP:4', 'MOVEASG:0', 'INSR:5', 'COPYASG:4'),
-    pv(0, 1, 'ASSIGN:5', 'SHRINK', 'ERASE1', 'INSR:2'),
     # exact fits: the new size equals the capacity (inline N = 4, then heap capacity 7 / 5 / 6): no reallocation allowed
     pv(0, 3, 'INS1', 'RESERVE:7', 'INSR:3', 'ERASE1'),
     pv(0, 2, 'INSN:2', 'POP', 'EMPLACE', 'SHRINK'),
@@ -108,7 +106,6 @@ BD_QUICK = [
     bd(8, 8, 'SETAT@7', 'FLIPAT@0', 'ASSIGNR:16', 'CLEAR'),
     bd(3, 4, 'PUSHF', 'INSR:5@3', 'ERASER:4@2', 'RESIZE:10'),        # non-power-of-two word size
     bd(3, 7, 'POPF', 'POPF', 'INS1@1', 'ERASE1@4'),
-    bd(3, 2, 'ASSIGNIL', 'INSN:7@1', 'POPB', 'RESIZE:12'),
 ]
 def pl(maxb, align, chunk, *ops, wchunk=0):
     """entry for pool.cpp: 'A' allocate (symbolic size/alignment), 'Ar' same + witness that a freed block is reused here, 'Dk' deallocate the k-th allocated block"""
@@ -133,8 +130,8 @@ def uniq(lst):
     for e in lst:
         if e[0] not in seen: seen.add(e[0]); out.append(e)
     return out
-P4_THOROUGH = list(P4_QUICK)
-for s0 in (3, 4, 5):
+P4_THOROUGH = list(P4_QUICK) + [pv(0, 4, 'CMP:4', 'MOVEASG:0', 'INSR:5', 'COPYASG:4'), pv(0, 1, 'ASSIGN:5', 'SHRINK', 'ERASE1', 'INSR:2')]
+for s0 in (4, 5):      # single-operation sweep from the full inline buffer and from the smallest heap state
     for o in SINGLE: P4_THOROUGH.append(pv(0, s0, o % dict(lo=2, hi=6, n=4)))
 P4_THOROUGH += [
     pv(0, 2, 'PUSH', 'PUSH', 'PUSH', 'INS1', 'ERASER:2@0', 'SHRINK'),
@@ -143,7 +140,7 @@ P4_THOROUGH += [
     pv(0, 4, 'SWAP:6', 'MOVE', 'INS1', 'RESERVE:9', 'ASSIGNR:9', 'ERASER:5'),
 ]
 P36_THOROUGH = list(P36_QUICK)
-for s0 in (35, 36, 37):
+for s0 in (36,):        # single-operation sweep from the full inline buffer (front / middle / back positions)
     for o in SINGLE:
         o = o % dict(lo=34, hi=38, n=36); k = o.split(':')[0]
         if k in ('INS1', 'INSN', 'INSR'): P36_THOROUGH += [pv(1, s0, o + '@0'), pv(1, s0, o + '@18'), pv(1, s0, o + '@%d' % s0)]
@@ -165,6 +162,7 @@ for tk in (0, 1):
         vd(tk, 3, 3, 0, 'SWAP:4', 'RESERVE:8', 'PUSHF', 'SHRINK', 'MOVECTOR', 'CMP:5'),
     ]
 BD_THOROUGH = BD_QUICK + [
+    bd(3, 2, 'ASSIGNIL', 'INSN:7@1', 'POPB', 'RESIZE:12'),
     bd(8, 15, 'PUSHF', 'PUSHF', 'ERASER:10@3', 'INSR:12@4', 'POPF', 'RESIZE:20'),
     bd(8, 24, 'ERASER:16@4', 'INSN:9@0', 'INSN:9@17', 'ERASE1@0', 'ERASE1@24', 'SWAP:8'),
     bd(3, 9, 'PUSHF', 'PUSHF', 'ERASER:5@3', 'INSR:7@2', 'POPF', 'RESIZE:14'),
